@@ -148,7 +148,8 @@ d! {
     #[schemars(title = "A title", description = "A description that is not a doc comment")]
     pub struct Titled { #[schemars(title = "field title")] pub a: Option<Inner>, #[schemars(description = "desc on a ref field")] pub b: Inner, #[deprecated] #[schemars(description = "deprecated ref")] pub c: Option<UnitEnum> }
     pub struct Chars { pub c: char, pub oc: Option<char>, pub vc: Vec<char> }
-    pub struct Nums { pub a: std::num::NonZeroU64, pub b: std::num::NonZeroI8, pub c: Option<std::num::NonZeroU16>, pub d: f32, pub e: Option<f64>, pub f: u128 }
+    pub struct SignedNonZero { pub b: std::num::NonZeroI8 }
+    pub struct Nums { pub a: std::num::NonZeroU64, pub c: Option<std::num::NonZeroU16>, pub d: f32, pub e: Option<f64>, pub f: u128 }
     pub struct Bounds2 {
         #[schemars(range(min = 0, max = 0))] pub zero: i32,
         #[schemars(range(min = -128, max = 127))] pub small: i8,
